@@ -727,6 +727,10 @@ func (f *MemFile) WriteAt(b []byte, off int64) (n int, err error) {
 		return 0, &fs.PathError{Op: op, Path: f.name, Err: err}
 	}
 
+	if len(b) == 0 {
+		return 0, nil
+	}
+
 	nd.mu.Lock()
 
 	diff := off + int64(len(b)) - nd.size()
